@@ -200,11 +200,25 @@ def check_sweep_quota(m, sw, cleaners, rule):
         return
     bad = []
     quotas = []
+    from ..facts import phi_leaves
     for ni in sw.all_insts():
-        if ni.op == 'phi' and '$1' in ni.o:
-            decs = [sw.get(o) for o in ni.o if o != '$1']
-            if decs and all(d is not None and unit_step(sw, d.ref) == (ni.ref, -1) for d in decs):
-                quotas.append((ni, decs))
+        if ni.op != 'phi':
+            continue
+        decs = [sw.get(o) for o in ni.o if isinstance(o, str) and sw.get(o) is not None and unit_step(sw, o) == (ni.ref, -1)]
+        inits = [o for o in ni.o if not (isinstance(o, str) and sw.get(o) is not None and unit_step(sw, o) == (ni.ref, -1))]
+        if not decs or not inits:
+            continue
+        # the quota starts as the parameter, or as something no larger than it (a trip count min(remaining, quota))
+        ok_init = True
+        for o in inits:
+            for leaf, lb, lf in phi_leaves(sw, pv.fc, o):
+                if leaf == '$1' or const_int(leaf) == 0:
+                    continue
+                fs = set(lf or ())
+                if not any(op in ('ule', 'ult') and x == leaf and y == '$1' for (op, x, y) in fs):
+                    ok_init = False
+        if ok_init:
+            quotas.append((ni, decs))
     for c in calls:
         ok = False
         # the quota variable (starts as the parameter, stepped down by one) is positive at the call on every way into it,
